@@ -494,6 +494,38 @@ func c12Cases() []c12Case {
 			}
 		}
 	}
+	// nil shadowed by a parameter: the comparison is with a caller-supplied pointer, which the grid makes equal to x
+	for _, cmp := range []string{"==", "!="} {
+		name := fmt.Sprintf("fn%d", n+1)
+		var an, ex string
+		if cmp == "==" {
+			an = fmt.Sprintf("func %s(x *int, nil *int) *int {\n\tif x == nil {\n\t\treturn x\n\t}\n\treturn x\n}\n", name)
+			ex = fmt.Sprintf("func %s(x *int, nil *int) *int {\n\tif x == nil {\n\t\tobs(\"retnil\", isNil(x))\n\t\treturn x\n\t}\n\treturn x\n}\n", name)
+		} else {
+			an = fmt.Sprintf("func %s(x *int, nil *int) *int {\n\tif x != nil {\n\t\treturn x\n\t}\n\treturn x\n}\n", name)
+			ex = fmt.Sprintf("func %s(x *int, nil *int) *int {\n\tif x != nil {\n\t\treturn x\n\t}\n\tobs(\"retnil\", isNil(x))\n\treturn x\n}\n", name)
+		}
+		body := fmt.Sprintf("\tfor _, x := range []*int{nil, new(int)} {\n\t\t_ = %s(x, x)\n\t\t_ = %s(x, new(int))\n\t}", name, name)
+		out = append(out, c12Case{
+			ID:       id("nilValReturn", "ptr", "param-shadow", cmp),
+			Analysed: "package vpkg\n\n" + an,
+			Exec:     gorun.Case{Decls: ex, Body: body},
+			Claims: func(ds []harness.Diag) []c12Claim {
+				var cs []c12Claim
+				for _, d := range ds {
+					if d.Checker == "nilValReturn" && strings.Contains(d.Text, "always nil") {
+						cs = append(cs, c12Claim{"nilValReturn|always-nil|nil=param-shadow", d.Text, func(o map[string][]string) string {
+							if ok, _ := allEqual(o["retnil"], "true"); !ok {
+								return "a non-nil value was returned by the flagged statement"
+							}
+							return ""
+						}})
+					}
+				}
+				return cs
+			},
+		})
+	}
 	// ---------------------------------------------------------------- dupSubExpr / dupArg: "the two operands are the same value"
 	dupOperands := []struct{ id, params, pre, expr, call string }{
 		{"int-var", "x int", "", "x", "3"},
